@@ -112,7 +112,7 @@ class Range(object):
 
         """
         for a in range(0, self.N):
-            yield (a-self.N/2) * self.df
+            yield (a-self.N//2) * self.df
 
     def twosided_gen(self):
         """Returns the twosided frequency range as a generator
@@ -588,50 +588,27 @@ class Spectrum(object):
             assert sides != 'onesided', \
                 "complex datatype so sides cannot be onesided."
 
-        if self.sides == 'onesided':
-            logging.debug('Current sides is onesided')
-            if sides == 'twosided':
-                logging.debug('--->Converting to twosided')
-                # here we divide everything by 2 to get the twosided version
-                #N = self.NFFT
-                newpsd = numpy.concatenate((self.psd[0:-1]/2., list(reversed(self.psd[0:-1]/2.))))
-                # so we need to multiply by 2 the 0 and FS/2 frequencies
-                newpsd[-1] = self.psd[-1]
-                newpsd[0] *= 2.
-            elif sides == 'centerdc':
-                # FIXME. this assumes data is even so PSD is stored as
-                # P0 X1 X2 X3 P1
-                logging.debug('--->Converting to centerdc')
-                P0 = self.psd[0]
-                P1 = self.psd[-1]
-                newpsd = numpy.concatenate((self.psd[-1:0:-1]/2., self.psd[0:-1]/2.))
-                # so we need to multiply by 2 the 0 and F2/2 frequencies
-                #newpsd[-1] = P0 / 2
-                newpsd[0] = P1
-        elif self.sides == 'twosided':
-            logging.debug('Current sides is twosided')
-            if sides == 'onesided':
-                # we assume that data is stored as X0,X1,X2,X3,XN
-                # that is original data is even.
-                logging.debug('Converting to onesided assuming ori data is even')
-                midN = (len(self.psd)-2) / 2
-                newpsd = numpy.array(self.psd[0:int(midN)+2]*2)
-                newpsd[0] /= 2
-                newpsd[-1] = self.psd[-1]
-            elif sides == 'centerdc':
-                newpsd = stools.twosided_2_centerdc(self.psd)
-        elif self.sides == 'centerdc': # same as twosided to onesided
-            logging.debug('Current sides is centerdc')
-            if sides == 'onesided':
-                logging.debug('--->Converting to onesided')
-                midN = int(len(self.psd) / 2)
-                P1 = self.psd[0]
-                newpsd = numpy.append(self.psd[midN:]*2, P1)
-            elif sides == 'twosided':
-                newpsd = stools.centerdc_2_twosided(self.psd)
-        else:
+        if sides not in ['onesided', 'twosided', 'centerdc']:
             raise ValueError("sides must be set to 'onesided', 'twosided' or 'centerdc'")
 
+        # first, express the stored PSD as a two-sided PSD (FFT order)
+        psd = numpy.asarray(self.psd)
+        if self.sides == 'onesided':
+            # the last value is the Nyquist frequency only if NFFT is even
+            even = self.NFFT % 2 == 0
+            twosided = stools.onesided_2_twosided(psd, even=even)
+        elif self.sides == 'centerdc':
+            twosided = stools.centerdc_2_twosided(psd)
+        else:
+            twosided = psd
+
+        # then, convert it to the requested format
+        if sides == 'twosided':
+            newpsd = twosided
+        elif sides == 'centerdc':
+            newpsd = stools.twosided_2_centerdc(twosided)
+        else:
+            newpsd = stools.twosided_2_onesided(twosided)
         return newpsd
 
     def plot(self, filename=None, norm=False, ylim=None,
